@@ -16,6 +16,11 @@
 #define ZSTD_DEPS_NEED_MALLOC
 #include "error_private.h"
 #include "zstd_internal.h"
+#include "zstd_verif.h"
+
+#ifdef ZSTD_VERIF_TRACE
+ZSTD_verif_hook_f ZSTD_verif_hook = NULL;
+#endif
 
 
 /*-****************************************
